@@ -149,11 +149,13 @@ Definition dec_sm_op (l : list Z) : option sm_op :=
   end.
 
 (* ---------- interpreter state ---------- *)
-Record rstate := mkRS { rs_sm : smgr; rs_regst : reg; rs_game : gstate }.
+Record rstate := mkRS0 { rs_sm : smgr; rs_regst : reg; rs_game : gstate; rs_stack : list gstate }.
+Definition mkRS (s : smgr) (r : reg) (g : gstate) : rstate := mkRS0 s r g [].
 
 Definition empty_game : gstate :=
   mkG (mkMeta 0 0 0 0 false 0 0 [] [] 0) (mkSt 0 0 [] RNone [] [] 0 0 0 0 0 0 EvNone None) [] None.
 Definition rs_init : rstate := mkRS (sm_init 0) (reg_init 9 6) empty_game.
+Definition with_game (st : rstate) (g : gstate) : rstate := mkRS0 (rs_sm st) (rs_regst st) g (rs_stack st).
 
 Definition bad : obs := [("bad", [1])].
 
@@ -205,9 +207,45 @@ Definition interp (st : rstate) (cmd : string) (args : list Z) : rstate * obs :=
     | Some o => let '(s, out, ret) := sm_step (rs_sm st) o in
                 (mkRS s (rs_regst st) (rs_game st), obs_sm s out ret)
     | None => (st, bad) end
+  else if String.eqb cmd "sm-set" then
+    match args with
+    | mx :: t =>
+        let n := Z.to_nat mx in
+        let occ := firstn n t in
+        let act := firstn n (skipn n t) in
+        let res := firstn n (skipn (2 * n) t) in
+        match skipn (3 * n) t with
+        | [d; sb; bb] =>
+            let seats := map (fun x => match x with (o, (ac, r)) => mkSeat (zbool o) (zbool ac) (zbool r) end)
+                             (combine occ (combine act res)) in
+            let opt z := if z <? 0 then None else Some (Z.to_nat z) in
+            let s := mkSM seats (opt d) (opt sb) (opt bb) in
+            (mkRS s (rs_regst st) (rs_game st), obs_sm s SOk (-1))
+        | _ => (st, bad) end
+    | _ => (st, bad) end
+  else if String.eqb cmd "sm-x" then
+    (* one transition from an explicit state: max, occ*, act*, res*, dealer, sb, bb, op *)
+    match args with
+    | mx :: t =>
+        let n := Z.to_nat mx in
+        let occ := firstn n t in
+        let act := firstn n (skipn n t) in
+        let res := firstn n (skipn (2 * n) t) in
+        match skipn (3 * n) t with
+        | [d; sb; bb; c; a; b] =>
+            let seats := map (fun x => match x with (o, (ac, r)) => mkSeat (zbool o) (zbool ac) (zbool r) end)
+                             (combine occ (combine act res)) in
+            let opt z := if z <? 0 then None else Some (Z.to_nat z) in
+            match dec_sm_op [c; a; b] with
+            | Some o => let '(s, out, ret) := sm_step (mkSM seats (opt d) (opt sb) (opt bb)) o in
+                        (st, obs_sm s out ret)
+            | None => (st, bad) end
+        | _ => (st, bad) end
+    | _ => (st, bad) end
   else if String.eqb cmd "reg-new" then
     match args with
-    | [mx; mn] => let r := reg_init mx mn in (mkRS (rs_sm st) r (rs_game st), obs_reg r)
+    | [mx; mn] => let r := reg_init mx mn in
+                  (mkRS (rs_sm st) r (rs_game st), reg_result (mkRst r [] [] false) ROk [])
     | _ => (st, bad) end
   else if String.eqb cmd "reg-add" then
     match take_list args with
@@ -242,14 +280,14 @@ Definition interp (st : rstate) (cmd : string) (args : list Z) : rstate * obs :=
   else if String.eqb cmd "game-do" then
     match dec_op args with
     | Some o => let '(g, out) := step (rs_game st) o in
-                (mkRS (rs_sm st) (rs_regst st) g, obs_game g out)
+                (with_game st g, obs_game g out)
     | None => (st, bad) end
   else if String.eqb cmd "game-try" then
     (* run the operation on a copy: report outcome and whether the erased state changed *)
     match dec_op args with
     | Some o => let '(g, out) := step (rs_game st) o in
                 (st, ("same", [zb (obs_eqb (obs_state g) (obs_state (rs_game st)))])
-                     :: obs_game g out)
+                     :: match out with Ok => obs_game g out | _ => [("o", [outcome_code out])] end)
     | None => (st, bad) end
   else if String.eqb cmd "game-view" then
     match args with
@@ -257,7 +295,15 @@ Definition interp (st : rstate) (cmd : string) (args : list Z) : rstate * obs :=
     | _ => (st, bad) end
   else if String.eqb cmd "game-erase" then
     (* a JSON hop: drop what is not serialised *)
-    (mkRS (rs_sm st) (rs_regst st) (erase (rs_game st)), [("ok", [1])])
+    (with_game st (erase (rs_game st)), [("ok", [1])])
+  else if String.eqb cmd "game-push" then
+    (mkRS0 (rs_sm st) (rs_regst st) (rs_game st) (rs_game st :: rs_stack st), [("ok", [1])])
+  else if String.eqb cmd "game-restore" then
+    match rs_stack st with
+    | g :: _ => (with_game st g, [("ok", [1])])
+    | [] => (st, bad) end
+  else if String.eqb cmd "game-drop" then
+    (mkRS0 (rs_sm st) (rs_regst st) (rs_game st) (tl (rs_stack st)), [("ok", [1])])
   else (st, bad).
 
 (* run a script of commands, collecting observations (used by the in-Coq cross-check) *)
